@@ -230,6 +230,17 @@ class Interp:
                 return Seq(base.kind, first.lo, first.hi, 1, base.chunks) if isinstance(first, (Elem, Seq)) else Seq(NONE, None, None, 1, base.chunks)
             if lo is None and hi is None:
                 return base
+            # x[:E] / x[E:] with the same (non-constant) split expression E: two blocks that meet at one symbolic point
+            if base.kind == ASC and ((lo is None) != (hi is None)):
+                E = hi if lo is None else lo
+                cache = st.env.setdefault("__splits__", {})
+                k = (id(base), "at:" + ast.dump(E))
+                if k not in cache:
+                    cache[k] = next(_sym)
+                m = cache[k]
+                if lo is None:
+                    return Seq(ASC, base.lo, m, 0, base.chunks)
+                return Seq(ASC, m, base.hi, 0, base.chunks)
             # a contiguous block at a position the domain does not track: still in operand order, over a fresh sub-interval
             if base.kind in (ASC, DESC):
                 return Seq(base.kind, next(_sym), next(_sym), 0, base.chunks)
@@ -266,6 +277,10 @@ class Interp:
             return Seq(DESC, b.lo, a.hi, a.minlen + b.minlen, chunks)
         if a.minlen >= 1 and b.minlen >= 1 and a.kind in (ASC, DESC) and b.kind in (ASC, DESC):
             # both parts certainly present and they do not touch in either order: the order is definitely lost
+            return Seq(NONE, None, None, a.minlen + b.minlen, chunks)
+        if a.kind == ASC and b.kind == ASC and st.uf.same(b.hi, a.lo) and not st.uf.same(a.lo, a.hi) and not st.uf.same(b.lo, b.hi):
+            # two ascending blocks that meet at one point, written in the *reverse* order (x[E:] + <...x[:E]...>): only right when one of
+            # them is always empty, i.e. when the concatenation is pointless — the author assumes the order does not matter
             return Seq(NONE, None, None, a.minlen + b.minlen, chunks)
         return UNKNOWN
 
